@@ -1120,6 +1120,9 @@ impl<'a> GeneratorState<'a> {
 
     fn generate_asm_statement(&mut self, s: &str, size: Option<u32>) -> Result<(), Error> {
         self.inline(s, size)?;
+        // Inline assembly can change any register and any flag
+        self.flags = FlagsState::Unknown;
+        self.carry_flag_ok = false;
         Ok(())
     }
 
